@@ -562,8 +562,8 @@ func (env *SpecEnv) callPred(pd *PredDef, recv *Val, args []SExpr) Val {
 		sfail("predicate %s expects %d arguments", pd.Name, len(pd.Params))
 	}
 	sub := &SpecEnv{ex: env.ex, st: env.st, old: env.old, fr: env.fr, vars: map[string]Val{}, pkg: env.pkg, depth: env.depth + 1}
-	if i := strings.Index(pd.Name, "."); i >= 0 && pd.Recv != "" {
-		sub.pkg = pd.Name[:i]
+	if pd.Pkg != "" {
+		sub.pkg = pd.Pkg
 	}
 	for i, a := range args {
 		sub.vars[pd.Params[i]] = env.eval(a)
